@@ -3,6 +3,9 @@ package main
 import (
 	"bytes"
 	"fmt"
+	"hash/adler32"
+	"hash/crc32"
+	"hash/fnv"
 	"io"
 	"math/rand"
 	"runtime"
@@ -1365,6 +1368,89 @@ func driveBulkStrings(tw *TraceWriter, rnd *rand.Rand, n int) {
 			}
 		}
 		ev["bad"] = bad
+	}()
+	tw.Emit(ev)
+	driveCollidingStrings(tw)
+}
+
+// driveCollidingStrings: pairs of different strings of equal length with the SAME 32-bit hash under the usual cheap hash
+// functions (FNV-1 and FNV-1a, CRC-32 IEEE and Castagnoli, Adler-32, djb2, sdbm, Java's 31-multiplier), found by a birthday
+// search over 600000 names, decoded back to back (a, b, a; newBuf true and false; as string and as bytes): whatever table
+// a decoder keeps, a value never comes back as another one.  One Bulk line.
+func driveCollidingStrings(tw *TraceWriter) {
+	ev := map[string]any{"op": "Bulk", "what": "hash-colliding pairs", "n": 0, "bad": 0, "panic": false}
+	func() {
+		defer func() {
+			if p := recover(); p != nil {
+				ev["panic"] = true
+			}
+		}()
+		hashes := map[string]func([]byte) uint32{
+			"fnv1a": func(b []byte) uint32 { h := fnv.New32a(); h.Write(b); return h.Sum32() },
+			"fnv1":  func(b []byte) uint32 { h := fnv.New32(); h.Write(b); return h.Sum32() },
+			"crc32": crc32.ChecksumIEEE,
+			"crc32c": func(b []byte) uint32 { return crc32.Checksum(b, crc32.MakeTable(crc32.Castagnoli)) },
+			"adler": adler32.Checksum,
+			"djb2": func(b []byte) uint32 {
+				h := uint32(5381)
+				for _, c := range b {
+					h = h*33 + uint32(c)
+				}
+				return h
+			},
+			"sdbm": func(b []byte) uint32 {
+				h := uint32(0)
+				for _, c := range b {
+					h = uint32(c) + (h << 6) + (h << 16) - h
+				}
+				return h
+			},
+			"java31": func(b []byte) uint32 {
+				h := uint32(0)
+				for _, c := range b {
+					h = 31*h + uint32(c)
+				}
+				return h
+			},
+		}
+		castagnoli := crc32.MakeTable(crc32.Castagnoli)
+		hashes["crc32c"] = func(b []byte) uint32 { return crc32.Checksum(b, castagnoli) }
+		n, bad := 0, 0
+		decode := func(a string) bool {
+			in := append([]byte{byte(len(a))}, a...)
+			for _, nb := range []bool{true, false} {
+				c, str, err := xbinary.UnmarshalString(in, nb)
+				if err != nil || c != len(in) || str != a {
+					return false
+				}
+				c, bs, err := xbinary.UnmarshalBytes(in, nb)
+				if err != nil || c != len(in) || string(bs) != a {
+					return false
+				}
+			}
+			return true
+		}
+		for _, name := range []string{"fnv1a", "fnv1", "crc32", "crc32c", "adler", "djb2", "sdbm", "java31"} {
+			h := hashes[name]
+			seen := make(map[uint32]string, 600000)
+			pairs := 0
+			for i := 0; i < 600000 && pairs < 40; i++ {
+				a := fmt.Sprintf("host-%06d", i)
+				k := h([]byte(a))
+				if b, ok := seen[k]; ok && b != a {
+					pairs++
+					for _, s := range []string{b, a, b, a} {
+						n++
+						if !decode(s) {
+							bad++
+						}
+					}
+					continue
+				}
+				seen[k] = a
+			}
+		}
+		ev["n"], ev["bad"] = n, bad
 	}()
 	tw.Emit(ev)
 }
